@@ -11,7 +11,7 @@ use crate::runner::{Ctx, Outcome, Property, Sub};
 use crate::sem::Bin;
 use crate::tape::{hash_str, Tape};
 
-const NUM_CONSTS: &[&str] = &["1", "2", "-5", "3.5", "&H10", "1E3", "-2.5#", "7%", "0", "12345678", "-32767", "32768", ".25", "1D2", "&17", "100", "-0.5", "65536", "2!"];
+const NUM_CONSTS: &[&str] = &["-1.23456789012", "-1D50", "-0.1#", "-16777217", "1.23456789012", "-32768", "-1E38", "0.1", "-0.1", "1", "2", "-5", "3.5", "&H10", "1E3", "-2.5#", "7%", "0", "12345678", "-32767", "32768", ".25", "1D2", "&17", "100", "-0.5", "65536", "2!"];
 const STR_CONSTS: &[&str] = &["\"A\"", "\"HELLO\"", "\"é\"", "\"\"", "\"1,2\"", "\"x y\"", "\"12\""];
 const NUM_TARGETS: &[&str] = &["A", "B%", "C#", "D!", "X", "Y%"];
 const STR_TARGETS: &[&str] = &["A$", "B$"];
